@@ -560,7 +560,7 @@ class Formatter:
         acc.append(join_keyword.upper())
         acc.append(self.dispatch(json[join_keyword], precedence["join"]))
 
-        if json.get("on"):
+        if "on" in json:
             acc.append("ON")
             acc.append(self.dispatch(json["on"]))
         if json.get("using"):
